@@ -13,7 +13,8 @@ import ast
 
 from .. import cfg as cfgmod
 from ..loader import AnalysisError, unparse, call_name, attr_chain
-from ..dataflow import linform, lin_eq, lin_str, single_assign_subst, target_names
+from ..dataflow import linform, lin_eq, lin_str, single_assign_subst, target_names, resolve_expr
+from ..inline import flatten
 from ..solver_model import Sweep, solver_function, iter_partition, eval_calls, series_mutation, is_series_append
 from ..cfg import handler_types, raised_name, exc_is_a
 
@@ -46,7 +47,7 @@ def check_bounds(check, f, subst, rule='C10.R1'):
     n_ob = 0
     for n in ast.walk(f.node):
         # range(...) bounds
-        if isinstance(n, ast.Call) and call_name(n) == 'range' and _mentions_attr(n, 'MaxTime'):
+        if isinstance(n, ast.Call) and call_name(n) == 'range' and _mentions_attr(resolve_expr(n, subst), 'MaxTime'):
             args = n.args
             lo = args[0] if len(args) >= 2 else ast.Constant(0)
             hi = args[1] if len(args) >= 2 else args[0]
@@ -65,7 +66,7 @@ def check_bounds(check, f, subst, rule='C10.R1'):
                      'any horizon: every series must have exactly horizon+1 points')
             n_ob += 1
         # broadcast [x]*(M+1)
-        if isinstance(n, ast.BinOp) and isinstance(n.op, ast.Mult) and _mentions_attr(n, 'MaxTime') and \
+        if isinstance(n, ast.BinOp) and isinstance(n.op, ast.Mult) and _mentions_attr(resolve_expr(n, subst), 'MaxTime') and \
                 (isinstance(n.left, ast.List) or isinstance(n.right, ast.List)):
             cnt = n.right if isinstance(n.left, ast.List) else n.left
             lf = linform(cnt, subst)
@@ -76,7 +77,7 @@ def check_bounds(check, f, subst, rule='C10.R1'):
                      'a float exogenous value with any horizon')
             n_ob += 1
         # slice x[0:M+1]
-        if isinstance(n, ast.Subscript) and isinstance(n.slice, ast.Slice) and _mentions_attr(n.slice, 'MaxTime'):
+        if isinstance(n, ast.Subscript) and isinstance(n.slice, ast.Slice) and _mentions_attr(resolve_expr(n.slice, subst), 'MaxTime'):
             sl = n.slice
             lf = linform(sl.upper, subst) if sl.upper is not None else None
             atom = [k for k in (lf or {}) if k.endswith('MaxTime')]
@@ -87,7 +88,7 @@ def check_bounds(check, f, subst, rule='C10.R1'):
                      'an exogenous list longer than the horizon')
             n_ob += 1
         # length test  len(x) < M+1
-        if isinstance(n, ast.Compare) and _mentions_attr(n, 'MaxTime') and len(n.ops) == 1 and \
+        if isinstance(n, ast.Compare) and _mentions_attr(resolve_expr(n, subst), 'MaxTime') and len(n.ops) == 1 and \
                 any(isinstance(c, ast.Call) and call_name(c) == 'len' for c in ast.walk(n)):
             l, r, op = linform(n.left, subst), linform(n.comparators[0], subst), n.ops[0]
             ok = False
@@ -123,17 +124,19 @@ def run(prog, check):
     sw = Sweep(prog)
     for f in (ic, sa, sw.f):
         check.saw(f)
+    # private helpers are looked through
+    ic, sa = flatten(prog, ic), flatten(prog, sa)
     # ---- R1 ----------------------------------------------------------------------------------------
     subst = single_assign_subst(ic.node)
     check_bounds(check, ic, subst)
     check_bounds(check, sa, single_assign_subst(sa.node))
     g = cfgmod.build(ic)
     # the too-short raise dominates the truncating store
-    tests = [n for n in g.nodes if n.kind == 'test' and _mentions_attr(n.ast, 'MaxTime')
+    tests = [n for n in g.nodes if n.kind == 'test' and _mentions_attr(resolve_expr(n.ast, subst), 'MaxTime')
              and any(isinstance(c, ast.Call) and call_name(c) == 'len' for c in ast.walk(n.ast))]
     stores = [n for n in g.stmt_nodes() if n.kind == 'stmt' and isinstance(n.ast, ast.Assign)
               and isinstance(n.ast.value, ast.Subscript) and isinstance(n.ast.value.slice, ast.Slice)
-              and _mentions_attr(n.ast.value.slice, 'MaxTime')]
+              and _mentions_attr(resolve_expr(n.ast.value.slice, subst), 'MaxTime')]
     for s in stores:
         ok = False
         for t in tests:
